@@ -34,7 +34,9 @@ def _wrap(core):
 
 
 # ---------------------------------------------------------------- integers
-def lit_integer(lo=None, hi=None):
+def lit_integer(lo=None, hi=None, max_len=None):
+    """max_len: longest literal generated (spyne documents a max_str_len guard on
+    fixed-width integers; redundant leading zeros beyond it are not demanded)."""
     def build(t):
         v, sign_plus, zeros = t
         s = str(abs(v))
@@ -43,6 +45,8 @@ def lit_integer(lo=None, hi=None):
             s = "-" + s
         elif sign_plus:
             s = "+" + s
+        if max_len is not None and len(s) > max_len:
+            s = str(v)
         return s, v
     ints = st.one_of(
         st.integers(min_value=lo, max_value=hi),
@@ -123,9 +127,11 @@ def offsets():
 def dates(min_year=1, max_year=9999):
     return st.one_of(
         st.dates(min_value=dtm.date(min_year, 1, 1), max_value=dtm.date(max_year, 12, 31)),
-        st.sampled_from([dtm.date(min_year, 1, 1), dtm.date(max_year, 12, 31),
-                         dtm.date(2000, 2, 29), dtm.date(1999, 12, 31), dtm.date(1970, 1, 1),
-                         dtm.date(2038, 1, 19), dtm.date(1900, 3, 1)]))
+        st.sampled_from([d for d in (dtm.date(min_year, 1, 1), dtm.date(max_year, 12, 31),
+                                      dtm.date(2000, 2, 29), dtm.date(1999, 12, 31),
+                                      dtm.date(1970, 1, 1), dtm.date(2038, 1, 19),
+                                      dtm.date(1900, 3, 1))
+                         if min_year <= d.year <= max_year]))
 
 
 def tz_of(minutes):
